@@ -18,7 +18,7 @@ import (
 
 func init() {
 	register(&Property{ID: "C09", Run: runC09, Meta: report.Meta{ID: "C09",
-		Explanation: "DECIDED (for all file contents, base offsets and positions inside the file — A-domain — at once): the safety half of the statement. R09a every index and slice expression in the text reader's primitives is in bounds, proven from the dominating guards, the invariant File.len = len(File.data), one-step induction on loop variables and the library contracts of regexp/utf8 (Fourier–Motzkin refutation of the negated obligation; an unproven obligation fails the check). R09b every return of a matching primitive is either the original position together with the no-match value, or File.Pos(c) with 0 <= c <= File.len proven. W0 the file's content, length and line table have no writer but the constructor (resp. the lazily-called setLines), the reader's file pointer none but NewReader: repeated reads are one value. R09c the regexp cache compiles '^(?:' + expr + ')' (anchored at the cursor as a whole, not only in its first alternative), keys reads and writes by that same expr, and rejects expressions matching the empty input. R09d Remaining is File.len - (pos - offset) and IsEOF is pos - offset >= File.len as linear forms (byte units on both sides). NOT DECIDED: agreement of each primitive's result with a byte-level specification of WHAT is matched, for every content.",
+		Explanation: "DECIDED (for all file contents, base offsets and positions inside the file — A-domain — at once): the safety half of the statement. R09a every index and slice expression in the text reader's primitives is in bounds, proven from the dominating guards, the invariant File.len = len(File.data), one-step induction on loop variables and the library contracts of regexp/utf8 (Fourier–Motzkin refutation of the negated obligation; an unproven obligation fails the check). R09b every return of a matching primitive is either the original position together with the no-match value, or File.Pos(c) with 0 <= c <= File.len proven. W0 the file's content, length and line table have no writer but the constructor (resp. the lazily-called setLines), the reader's file pointer none but NewReader: repeated reads are one value. R09c the regexp cache compiles '^(?:' + expr + ')' (anchored at the cursor as a whole, not only in its first alternative), keys reads and writes by that same expr, and rejects expressions matching the empty input. R09d Remaining is File.len - (pos - offset) and IsEOF is pos - offset >= File.len as linear forms (byte units on both sides). R09e the byte after a word rejects the match iff it is [A-Za-z0-9_] (256-value folding). R09f a rune is narrowed to 8 bits — compared with ONE input byte — only under facts proving it < 0x80. NOT DECIDED: agreement of each primitive's result with a byte-level specification of WHAT is matched, for every content.",
 		Assumptions: append([]string{"A-domain: positions passed to reader primitives satisfy offset <= pos <= offset+len; constructor arguments lie in their documented domains (non-empty ASCII words, valid regexps, valid group indexes)", "A-lib: contracts of regexp.FindIndex/FindSubmatch, utf8.DecodeRune, sort.Search used as axioms"}, commonAssumptions...), TrustedBase: commonTrusted}})
 }
 
